@@ -219,7 +219,7 @@ def gen(rng, i, tier):
     r = rng.random()
     if r < 0.45:
         kind, a, lim, why = invalid_case(rng)
-        case = {"mode": "invalid", "kind": kind, "args": a, "limits": lim, "why": why}
+        case = {"mode": "invalid", "kind": kind, "args": a, "limits": lim, "why": why, "decoys": rng.random() < 0.4}
         tabs = [z for (k, z) in TABLE_PARAMS if k == kind and isinstance(a.get(z), dict)]
         if tabs and rng.random() < 0.4:
             # a GOOD table on the same axes layout (2-D if the bad one is 2-D) to be accepted first through the same object
@@ -287,6 +287,14 @@ def run(ctx, case):
     ns = loader.load()
     kind = case["kind"]
     if case["mode"] == "invalid":
+        if case.get("decoys"):
+            # other components carrying the SAME number in a slot where it is legal were built earlier in the process
+            for v_ in [x for x in case["args"].values() if isinstance(x, (int, float)) and not isinstance(x, bool) and x == x]:
+                for k_, kw_ in (("Rectifier", {"vdrop": v_}), ("VLoss", {"vdrop": v_}), ("RLoss", {"rs": v_}), ("ILoad", {"ii": v_}),
+                                ("Source", {"vo": v_}), ("PLoad", {"pwr": v_}), ("Converter", {"vo": v_, "eff": 0.9}),
+                                ("Rectifier", {"vdrop": -v_}), ("PSwitch", {"rs": v_})):
+                    H.call(ns.KINDS[k_], "decoy", **kw_)
+            ctx.count("table_object", "decoys with the same numbers built first")
         if case.get("reuse_object"):
             # the very dict object that now holds the unacceptable table was accepted before, with good contents, and
             # then edited in place (a sweep over table values): every constructor call validates what it is given
